@@ -25,16 +25,40 @@
   * the failure half that does not depend on the undo log, rejection of malformed operations,
     purity of `test`, root targets (D11, repaired).
 
+  * RFC 6902 CONFORMANCE of the model, `jsoncons::json` (sorted objects), BOTH directions (helper lemmas
+    in JV.Proofs.PatchSpecA–E; they rest on the C14 pointer lemmas and on `parse s = ok ts ↔ tokens s = some ts`):
+      apply_refines_spec  : d.WF → p.WF → (applyPatch false d p).1 = none →
+                              Rfc6902.applyPatch d p = some (applyPatch false d p).2
+          (`apply_refines_spec_values`: only the patch's `value` members need the invariant;
+           `apply_op_refines_spec`: the per-operation statement, all six operations, incl. `definite_path`'s
+           resolution of a trailing `-` and the insert-else-replace fallback = RFC "add to an existing
+           member replaces it")
+      spec_success_implies_model_success : d.WF → PatchValuesWF p → PatchSmallRun d p →
+                              Rfc6902.applyPatch d p = some r → applyPatch false d p = (none, r)
+      apply_iff_spec      : applyPatch false d p = (none, r) ↔ Rfc6902.applyPatch d p = some r
+          `PatchSmallRun`: every document of the reference run has arrays shorter than 2^64 (index tokens
+          are read as `size_t`).  No deviation from RFC 6902 found for the sorted flavour; error KINDS are
+          not compared.  The insertion-ordered flavour is not covered (D18: `test` on `ojson` is
+          member-order sensitive).
+  * DIFF LAW, `jsoncons::json` (JV.Proofs.PatchDiffA–D; `fromDiff_run`: the patch produced for a sub-document
+    at `loc` rewrites exactly that sub-document of any host document):
+      diff_law            : a.WF → b.WF → SmallArrays a → SmallArrays b →
+                              applyPatch false a (.arr (fromDiff false [] a b)) = (none, b)
+          for ALL documents (no restriction on arrays); both `WF` hypotheses are necessary (witnesses).
+
   Remaining gap of this property (checked on every run by the correspondence run against the Lean
   Spec and by the property oracle on the real code; see DESIGN.md):
-      apply_refines_spec  : (applyPatch false d p).1 = none → Rfc6902.applyPatch d p = some (applyPatch false d p).2
-      diff_law            : applyPatch o a (fromDiff o [] a b) = (none, b)
+      the insertion-ordered flavour (`ojson`, `ordered = true`) of `apply_refines_spec` and `diff_law`
+      (there only up to member order, `JsonEq`; `test` is member-order sensitive, D18);
+      `diff_law_spec` still assumes `PatchValuesWF` of the produced patch (its values are sub-values of `b`).
   Atomicity is a theorem about the MODEL's undo log; allocation failure inside the unwinder (D66) is
   outside the model.
 -/
 import JV.Proofs.Patch
 import JV.Proofs.PatchUndoD
 import JV.Proofs.PatchUndoF
+import JV.Proofs.PatchSpecE
+import JV.Proofs.PatchDiffD
 namespace JV.Props.C15
 open JV Model Model.Patch Model.Pointer
 open JV.Model.JsonPath (UK UKList UKMembers)
@@ -129,6 +153,101 @@ theorem apply_atomic_sorted_values (d p : JVal) (hd : d.WF) (hp : PatchValuesWF 
 theorem apply_atomic_sorted (d p : JVal) (hd : d.WF) (hp : p.WF) :
     (applyPatch false d p).1 ≠ none → (applyPatch false d p).2 = d :=
   apply_atomic_sorted_values d p hd (patchValuesWF_of_wf hp)
+
+/-! ### RFC 6902 CONFORMANCE: a run that commits has computed what the RFC prescribes -/
+
+/-- PER OPERATION: an operation object that `apply_patch` performs successfully on a `jsoncons::json`
+    document is a well-formed RFC 6902 operation (`Rfc6902.decode` accepts it, with the same reference
+    tokens) and the document afterwards is exactly the one `Rfc6902.applyOp` prescribes — for all six
+    operations, including `definite_path`'s resolution of a trailing `-` and the insert-else-replace
+    fallback (RFC 6902 §4.1: `add` to an existing member replaces it). -/
+theorem apply_op_refines_spec (t operation : JVal) (ht : t.WF) (h : (applyOp false t operation).1 = none) :
+    (Spec.Rfc6902.decode operation).bind (Spec.Rfc6902.applyOp t) = some (applyOp false t operation).2.1 :=
+  applyOp_refines t operation ht h
+
+/-- RFC 6902 CONFORMANCE for `jsoncons::json` (sorted objects): whenever `apply_patch` reports no error,
+    the document it leaves is exactly the one the RFC 6902 reference computes — for every patch, under the
+    representation invariant of the type for the document and for the values carried by the patch. -/
+theorem apply_refines_spec_values (d p : JVal) (hd : d.WF) (hp : PatchValuesWF p)
+    (h : (applyPatch false d p).1 = none) :
+    Spec.Rfc6902.applyPatch d p = some (applyPatch false d p).2 := by
+  cases p with
+  | arr ops => exact applyLoop_refines ops d [] hd hp h
+  | _ => simp [applyPatch] at h
+
+theorem apply_refines_spec (d p : JVal) (hd : d.WF) (hp : p.WF) (h : (applyPatch false d p).1 = none) :
+    Spec.Rfc6902.applyPatch d p = some (applyPatch false d p).2 :=
+  apply_refines_spec_values d p hd (patchValuesWF_of_wf hp) h
+
+/-- `apply_patch`'s pointer parser accepts exactly the RFC 6901 JSON Pointers, with the same reference tokens -/
+theorem patch_path_iff_rfc6901 (s : Bytes) (ts : List Bytes) : parse s = .ok ts ↔ Spec.Rfc6901.tokens s = some ts :=
+  parse_iff_tokens s ts
+
+/-- every document the reference run passes through (incl. the one between the two halves of a `move`)
+    has arrays shorter than 2^64 — always true of C++ containers; array-index tokens are read as `size_t` -/
+def PatchSmallRun (d : JVal) : JVal → Prop
+  | .arr ops => SmallRun d ops
+  | _ => True
+
+/-- PER OPERATION, CONVERSE: every operation object the RFC 6902 reference decodes and performs,
+    `apply_patch` performs without error -/
+theorem spec_op_success_implies_model_success (t operation r : JVal) (ht : t.WF) (hs : SmallArrays t)
+    (hmid : MoveMidSmall t)
+    (h : (Spec.Rfc6902.decode operation).bind (Spec.Rfc6902.applyOp t) = some r) :
+    applyOp false t operation = (none, r, (applyOp false t operation).2.2) := by
+  have hok := applyOp_complete t operation r ht hs hmid h
+  have href := applyOp_refines t operation ht hok
+  unfold specStep at href
+  rw [h] at href
+  simp only [Option.some.injEq] at href
+  rw [href, ← hok]
+
+/-- CONVERSE of `apply_refines_spec`: whenever the RFC 6902 reference applies the patch, `apply_patch`
+    (on `jsoncons::json`) reports no error and leaves the same document.  No deviation of the model from
+    RFC 6902 in the accept direction was found: the only hypothesis besides the representation invariant
+    is that arrays stay shorter than 2^64. -/
+theorem spec_success_implies_model_success (d p r : JVal) (hd : d.WF) (hp : PatchValuesWF p)
+    (hs : PatchSmallRun d p) (h : Spec.Rfc6902.applyPatch d p = some r) : applyPatch false d p = (none, r) := by
+  cases p with
+  | arr ops =>
+    have hok := applyLoop_complete ops d [] r hd hp hs h
+    have href := applyLoop_refines ops d [] hd hp hok
+    simp only [Spec.Rfc6902.applyPatch] at h
+    rw [h] at href
+    simp only [Option.some.injEq] at href
+    simp only [applyPatch]
+    rw [href, ← hok]
+  | _ => simp [Spec.Rfc6902.applyPatch] at h
+
+/-- RFC 6902 CONFORMANCE, both directions: on `jsoncons::json` documents `apply_patch` succeeds exactly
+    when the reference does, with the same result (error kinds are not compared) -/
+theorem apply_iff_spec (d p r : JVal) (hd : d.WF) (hp : PatchValuesWF p) (hs : PatchSmallRun d p) :
+    applyPatch false d p = (none, r) ↔ Spec.Rfc6902.applyPatch d p = some r := by
+  constructor
+  · intro h
+    have h1 : (applyPatch false d p).1 = none := by rw [h]
+    have := apply_refines_spec_values d p hd hp h1
+    rw [h] at this; exact this
+  · exact spec_success_implies_model_success d p r hd hp hs
+
+/-! ### the DIFF LAW: `from_diff(a, b)` applied to `a` gives `b` -/
+
+/-- DIFF LAW for `jsoncons::json` (sorted objects): `apply_patch(a, from_diff(a, b))` reports no error and
+    leaves exactly `b` — for all documents (objects: removed / changed / added members; arrays:
+    element-wise up to the common length, then removals from the end or appends; scalars and kind
+    changes: replace; names with `/` `~`, a member named `-`), under the representation invariant of
+    the type (needed for both, witnesses below) and arrays shorter than 2^64. -/
+theorem diff_law (a b : JVal) (ha : a.WF) (hb : b.WF) (hsa : SmallArrays a) (hsb : SmallArrays b) :
+    applyPatch false a (.arr (fromDiff false [] a b)) = (none, b) :=
+  diff_law_sorted a b ha hb hsa hsb
+
+/-- … hence the patch `from_diff` produces is also one the RFC 6902 reference turns `a` into `b` with -/
+theorem diff_law_spec (a b : JVal) (ha : a.WF) (hb : b.WF) (hsa : SmallArrays a) (hsb : SmallArrays b)
+    (hp : PatchValuesWF (.arr (fromDiff false [] a b))) :
+    Spec.Rfc6902.applyPatch a (.arr (fromDiff false [] a b)) = some b := by
+  have h := diff_law a b ha hb hsa hsb
+  have := apply_refines_spec_values a _ ha hp (by rw [h])
+  rw [h] at this; exact this
 
 /-- no operation of the patch is `remove` or `move` (decidable) -/
 def patchNoRemoval : JVal → Bool
@@ -318,5 +437,35 @@ example : JsonEq (applyPatch true doc3 patchO4).2 doc3 :=
     shadowed member instead of re-creating the removed one -/
 example : applyPatch true (.obj [([97], .int 1), ([97], .int 2)]) (.arr [opRemoveA, opTestRoot8])
     = (some .testFailed, .obj [([97], .int 1)]) := by decide
+
+/-! non-vacuity of `apply_refines_spec` / `apply_iff_spec`: the three-operation patch above (append through
+    `-`, `move` out of an object into an array, `remove` with shifting) and the insert-else-replace
+    fallback (`add` to an existing member replaces it, RFC 6902 §4.1) -/
+example : Spec.Rfc6902.applyPatch doc2 patch3 = some (.obj [([97], .arr [.int 3, .int 2, .int 9]), ([98], .obj [])]) := by decide
+example : Spec.Rfc6902.applyPatch doc2 patch3 = some (applyPatch false doc2 patch3).2 :=
+  apply_refines_spec doc2 patch3
+    (by simp [doc2, JVal.WF, WFList, WFMembers, Assoc.Sorted, keyLt])
+    (by simp [patch3, opAddDash, opMoveCA0, opRemoveA1, JVal.WF, WFList, WFMembers, Assoc.Sorted, keyLt,
+          sOp, sPath, sValue, sFrom])
+    (by decide)
+example : applyPatch false docA (.arr [opAddA5]) = (none, .obj [([97], .int 5)])
+    ∧ Spec.Rfc6902.applyPatch docA (.arr [opAddA5]) = some (.obj [([97], .int 5)]) := by decide
+-- both reject: `-` for replace, an index with a leading zero, a `test` that fails
+example : (applyPatch false doc2 (.arr [.obj [(sOp, .str sReplace), (sPath, .str [47, 97, 47, 45]), (sValue, .int 1)]])).1 ≠ none
+    ∧ Spec.Rfc6902.applyPatch doc2 (.arr [.obj [(sOp, .str sReplace), (sPath, .str [47, 97, 47, 45]), (sValue, .int 1)]]) = none := by decide
+example : (applyPatch false doc2 (.arr [.obj [(sOp, .str sRemove), (sPath, .str [47, 97, 47, 48, 49])]])).1 ≠ none
+    ∧ Spec.Rfc6902.applyPatch doc2 (.arr [.obj [(sOp, .str sRemove), (sPath, .str [47, 97, 47, 48, 49])]]) = none := by decide
+
+/-! non-vacuity of `diff_law`, and the representation invariant is needed for both documents -/
+def docB : JVal := .obj [([97], .arr [.int 1, .obj [([45], .null)], .int 3]), ([99, 47, 126], .bool true)]
+def docC : JVal := .obj [([97], .arr [.int 1, .obj [([45], .int 2), ([120], .null)]]), ([98], .str [120]), ([99, 47, 126], .arr [])]
+example : applyPatch false docB (.arr (fromDiff false [] docB docC)) = (none, docC) := by decide
+example : applyPatch false docC (.arr (fromDiff false [] docC docB)) = (none, docB) := by decide
+example : (fromDiff false [] docB docC).length = 5 := by decide
+example : applyPatch false (.obj []) (.arr (fromDiff false [] (.obj []) (.obj [([98], .int 1), ([97], .int 2)])))
+    = (none, .obj [([97], .int 2), ([98], .int 1)]) := by decide
+example : applyPatch false (.obj [([98], .int 1), ([97], .int 2)])
+    (.arr (fromDiff false [] (.obj [([98], .int 1), ([97], .int 2)]) (.obj [([97], .int 2), ([98], .int 1)])))
+    = (none, .obj [([98], .int 1), ([97], .int 2)]) := by decide
 
 end JV.Props.C15
